@@ -97,7 +97,20 @@ def gen_random(rng):
     for _ in range(n):
         r = rng.random()
         p = rng.choice(pids)
-        if r < 0.18:
+        if state[p] == "tid":
+            # the number lives on as a thread id of another process: only the objects made earlier can still name it
+            if nh and r < 0.6:
+                k = rng.choice(["send_signal", "suspend", "resume", "terminate", "kill"])
+                hist.append(("sig", rng.randrange(nh), k, rng.choice(SIGNOS) if k == "send_signal" else None))
+            elif nh and r < 0.8:
+                hist.append(("set", rng.randrange(nh), "nice", rng.randrange(-20, 20)))
+            elif nh:
+                hist.append(("isrun", rng.randrange(nh)))
+            continue
+        if r < 0.02 and state[p] == "free":
+            hist.append(("thread", rng.choice([1, 2]), p))      # recycled as a *thread* id (kill/setpriority/... accept those)
+            state[p] = "tid"
+        elif r < 0.18:
             if state[p] == "free":
                 z = rng.random() < 0.2
                 if rng.random() < 0.25:
@@ -227,7 +240,9 @@ def run_history(hist, acc, with_pid0=False, caller_pid=None):
                 if hi >= len(w.handles) or hi < 0:
                     continue
                 op = (op[0], hi) + op[2:]
-            if op[0] == "spawn" and op[1] in w.t.procs:
+            if op[0] == "spawn" and w.t.owner_of(op[1])[0] is not None:
+                continue
+            if op[0] == "thread" and (w.t.owner_of(op[2])[0] is not None or op[1] not in w.t.procs):
                 continue
             if op[0] in ("exit",) and (op[1] not in w.t.procs or w.t.procs[op[1]].zombie):
                 continue
@@ -321,6 +336,19 @@ def odd_name_histories():
                     out.append([("spawn", 7, False, None, a), ("new", 7), ("vanish", 7), ("spawn", 7, z, None, b), tail, ("isrun", 0)])
                 out.append([("spawn", 7, False, None, a), ("iter", "keep"), ("exit", 7), ("reap", 7), ("spawn", 7, z, None, b),
                             ("sig", 0, "terminate", None), ("set", 0, "rlimit", [7, [5, 9]])])
+    return out
+
+
+def tid_reuse_histories():
+    """The number comes back as the id of a non-leader *thread* of another process: not listed in /proc, refused by
+    pid_exists(), yet kill(2), setpriority(2), sched_setaffinity(2), ioprio_set(2) and prlimit(2) all accept it."""
+    out = []
+    tails = [("sig", 0, "kill", None), ("sig", 0, "terminate", None), ("sig", 0, "suspend", None), ("sig", 0, "send_signal", 10),
+             ("set", 0, "nice", 5), ("set", 0, "ionice", [2, 3]), ("set", 0, "affinity", [0]), ("set", 0, "rlimit", [7, [5, 9]])]
+    for tail in tails:
+        for seen in ([], [("isrun", 0)], [("sig", 0, "send_signal", 0)], [("wait", 0)], [("q", 0, "name")]):
+            out.append([("spawn", 7, False), ("new", 7), ("vanish", 7)] + seen + [("thread", 1, 7), tail, ("isrun", 0), tail])
+        out.append([("spawn", 7, False), ("iter", "keep"), ("exit", 7), ("reap", 7), ("iter", "keep"), ("thread", 2, 7), tail])
     return out
 
 
@@ -640,6 +668,9 @@ def run_shard(shard):
             run_history(h, acc, with_pid0=True)
         for h in signo_histories():
             run_history(h, acc)
+        for h in tid_reuse_histories():
+            run_history(h, acc)
+            acc.count("histories_with_pid_recycled_as_thread_id")
         for h in odd_name_histories():
             run_history(h, acc)
             acc.count("histories_with_odd_process_names")
